@@ -109,6 +109,35 @@ package server
 //@   requires rng.Start.Line >= 1 && rng.Start.Column >= 1 && rng.End.Line >= 1 && rng.End.Column >= 1 && rng.Start.Line <= 4294967296 && rng.Start.Column <= 4294967296 && rng.End.Line <= 4294967296 && rng.End.Column <= 4294967296
 //@   ensures [copy] result != nil && result.Start.Line == rng.Start.Line - 1 && result.Start.Character == rng.Start.Column - 1 && result.End.Line == rng.End.Line - 1 && result.End.Character == rng.End.Column - 1
 
+// Transaction folds (C08: "fold regions of different entries never partially overlap"; mechanism "transaction fold end =
+// line of the next token"). A transaction's range ends where the next token starts. FoldEndOf is the last line (0-based)
+// that belongs to the transaction: the line before, when that token starts a line. LinesApart: no two transactions share
+// a source line (a transaction can start mid-line after a posting with trailing text; then the two folds touch by
+// construction, which is the only exception to strict separation).
+//@ pred FoldEndOf(tx) := ite(tx.Range.End.Column == 1 && tx.Range.End.Line > tx.Range.Start.Line, tx.Range.End.Line - 2, tx.Range.End.Line - 1)
+//@ pred LinesApart(j) := forall a int, b int :: {j.Transactions[a]; j.Transactions[b]} 0 <= a && a < b && b < len(j.Transactions) ==> j.Transactions[a].Range.End.Column == 1 || j.Transactions[a].Range.End.Line < j.Transactions[b].Range.Start.Line
+//@ func findTransactionFolds
+//@   props C08
+//@   requires len(content) < 2147483646
+//@   ensures [C08:fold_well_formed] forall k int :: {result[k]} 0 <= k && k < len(result) ==> result[k].StartLine < result[k].EndLine
+//@   ensures [C08:folds_ordered] forall k int :: {result[k]} 0 <= k && k + 1 < len(result) ==> result[k].EndLine <= result[k + 1].StartLine
+//@   loop 1 invariant journal != nil && 0 - 1 <= rangeindex && (len(ranges) == 0 || fresh(ranges))
+//@   loop 1 invariant [C08:fold_well_formed] forall k int :: {ranges[k]} 0 <= k && k < len(ranges) ==> ranges[k].StartLine < ranges[k].EndLine
+//@   loop 1 invariant [C08:fold_of_a_transaction] forall k int :: {ranges[k]} 0 <= k && k < len(ranges) ==> (exists i int :: 0 <= i && i <= rangeindex && i < len(journal.Transactions) && ranges[k].StartLine == journal.Transactions[i].Range.Start.Line - 1 && ranges[k].EndLine == FoldEndOf(journal.Transactions[i]))
+//@   loop 1 invariant [C08:folds_ordered] forall k int :: {ranges[k]} 0 <= k && k + 1 < len(ranges) ==> ranges[k].EndLine <= ranges[k + 1].StartLine
+//@   loop 1 invariant [C08:before_later_transactions] forall k int, j int :: {ranges[k]; journal.Transactions[j]} 0 <= k && k < len(ranges) && rangeindex < j && j < len(journal.Transactions) ==> ranges[k].EndLine <= journal.Transactions[j].Range.Start.Line - 1
+//@   loop 1 invariant [C08:folds_disjoint] LinesApart(journal) ==> (forall k int :: {ranges[k]} 0 <= k && k + 1 < len(ranges) ==> ranges[k].EndLine < ranges[k + 1].StartLine)
+//@   loop 1 invariant [C08:strictly_before_later_transactions] LinesApart(journal) ==> (forall k int, j int :: {ranges[k]; journal.Transactions[j]} 0 <= k && k < len(ranges) && rangeindex < j && j < len(journal.Transactions) ==> ranges[k].EndLine < journal.Transactions[j].Range.Start.Line - 1)
+//@   loop 1 decreases len(journal.Transactions) - rangeindex
+
+// The handler: the transaction folds come first; directive and comment-block folds are found by scanning the raw lines
+// (strings.Split / TrimSpace over the text, no relation to the syntax tree): not under contract.
+//@ trusted findDirectiveFolds
+//@ trusted findCommentBlockFolds
+//@ func (*Server).FoldingRanges
+//@   props C08
+//@   requires s != nil && params != nil && DocSmall(s, params.TextDocument.URI)
+
 //@ func positionInRange
 //@   props C08
 //@   ensures [spec] result <==> ((pos.Line + 1 > rng.Start.Line || (pos.Line + 1 == rng.Start.Line && pos.Character + 1 >= rng.Start.Column)) && (pos.Line + 1 < rng.End.Line || (pos.Line + 1 == rng.End.Line && pos.Character + 1 <= rng.End.Column)) && pos.Line + 1 >= rng.Start.Line && pos.Line + 1 <= rng.End.Line)
